@@ -106,7 +106,9 @@ End Net.
 Record n_round := mkNRound {
   nr_obs : list (bool * list nat);        (* VALID observations of the round: (from a Byzantine member?, performable rows) *)
   nr_agreed : list nat;                   (* rows agreed by the round's outcome *)
-  nr_reports : list (list nat)            (* reports built from it *)
+  nr_reports : list (list nat);           (* reports built from it *)
+  nr_inflight : list N                    (* work ids in flight on EVERY honest node when the round started: in a report all of
+                                             them accepted, no restart / transmit event / lockout expiry since *)
 }.
 
 Record n_case := mkNCase {
@@ -160,7 +162,11 @@ Definition K09_single (k : n_case) : bool :=
   forallb (fun t => forallb (fun a => forallb (fun b => rows_eqb a b || negb (share_wid k a b)) (snd t)) (snd t))
           (nc_transmit k).
 
-Definition K09 (k : n_case) : bool := K09_safety k &&& K09_single k.
+(* "not reported again while it is in flight on every honest node" *)
+Definition K09_not_again (k : n_case) : bool :=
+  forallb (fun rd => forallb (fun r => negb (memN (wid_of k r) (nr_inflight rd))) (nr_agreed rd)) (nc_rounds k).
+
+Definition K09 (k : n_case) : bool := K09_safety k &&& K09_not_again k &&& K09_single k.
 
 Definition n_nontriv (k : n_case) : bool :=
   existsb (fun t => negb (Nat.eqb (length (snd t)) 0)) (nc_transmit k).
@@ -174,4 +180,4 @@ Definition K09_single_masked (k : n_case) : bool :=
              || forallb (fun r => forallb (fun r' => negb (wid_of k r =? wid_of k r') || Nat.eqb r r') b) a) (snd t)) (snd t))
           (nc_transmit k).
 Definition n_kf_rebatch (k : n_case) : bool :=
-  negb (K09 k) &&& K09_safety k &&& K09_single_masked k.
+  negb (K09 k) &&& K09_safety k &&& K09_not_again k &&& K09_single_masked k.
